@@ -125,7 +125,7 @@ func (run *FuncRun) callFunction(st *State, in *ssa.Call, b *ssa.BasicBlock, idx
 			fail("%s: cannot inline %s (no body)", run.key, run.eng.funcKey(fn))
 		}
 		fr := &Frame{fn: fn, regs: map[ssa.Value]Val{}, locals: map[*ssa.Alloc]Val{}, openLoops: map[int]bool{}, iters: map[int]*RangeIter{},
-			loopEntry: map[int]*Snapshot{}, loopAssign: map[int]*assignSet{}, decAt: map[int]Term{}, parent: st.frame, retInstr: in, retBlock: b, retIdx: idx + 1, depth: st.frame.depth + 1}
+			loopEntry: map[int]*Snapshot{}, loopAssign: map[int]*assignSet{}, loopLocals: map[int]map[*ssa.Alloc]Val{}, decAt: map[int]Term{}, parent: st.frame, retInstr: in, retBlock: b, retIdx: idx + 1, depth: st.frame.depth + 1}
 		fr.inlineTag = run.inlineTag(st, fn)
 		for i, p := range fn.Params {
 			fr.regs[p] = args[i]
@@ -219,12 +219,19 @@ func (run *FuncRun) checkPost(st *State, res Val, in *ssa.Return) {
 		if run.cone != nil && !run.cone[cl.Label] && !run.cone["*"] {
 			continue
 		}
+		if cl.Assumed {
+			run.note("clause [%s] of %s defines a ghost relation and is assumed, not proved", cl.Label, fc.Key)
+			continue
+		}
 		cenv := env
 		if cl.Internal {
 			cenv = env.clone()
 			cenv.frame = st.frame
 		}
-		goals := cenv.proveGoals(cl.Expr)
+		goals, skipped := safeGoals(cenv, cl)
+		if skipped {
+			continue // a check clause about locals that do not exist on this path
+		}
 		run.addGoals(st, "post", cl.Label, goals, cl.Src, cl.Where)
 	}
 	if fc.HasAssigns {
@@ -282,10 +289,11 @@ type assignSet struct {
 	comps  map[string]Sort
 	all    bool
 	globals map[string]bool
+	anyFields map[string]map[int]bool // component -> fields assignable in every object
 }
 
 func newAssignSet() *assignSet {
-	return &assignSet{whole: map[string][]Term{}, fields: map[string]map[string][]int{}, frefs: map[string]map[string]Term{}, comps: map[string]Sort{}, globals: map[string]bool{}}
+	return &assignSet{whole: map[string][]Term{}, fields: map[string]map[string][]int{}, frefs: map[string]map[string]Term{}, comps: map[string]Sort{}, globals: map[string]bool{}, anyFields: map[string]map[int]bool{}}
 }
 
 // assignSetOf evaluates the assigns clause in the pre-state.
@@ -301,6 +309,23 @@ func (env *CEnv) assignSetOfItems(items []AssignItem, where string) *assignSet {
 		switch it.Kind {
 		case "all":
 			as.all = true
+		case "anyfield":
+			ty := env.run.eng.resolveType(it.Type, env.pkg, env.tsubst)
+			pt, ok := ty.Underlying().(*types.Pointer)
+			if !ok {
+				fail("%s: assigns any(T).f: T must be a pointer to struct", fc.Where)
+			}
+			so := reg.SortOf(pt.Elem())
+			fi := reg.FieldIndex(so, it.Name)
+			if fi < 0 {
+				fail("%s: assigns: no field %s in %s", fc.Where, it.Name, so)
+			}
+			comp := compStruct(so)
+			as.comps[comp] = ArrSort(SInt, so)
+			if as.anyFields[comp] == nil {
+				as.anyFields[comp] = map[int]bool{}
+			}
+			as.anyFields[comp][fi] = true
 		case "global":
 			as.globals[it.Name] = true
 		case "var":
@@ -431,6 +456,25 @@ func (run *FuncRun) checkFrameAgainst(st *State, base *Snapshot, as *assignSet, 
 			hyps = append(hyps, Neq(rt, w))
 		}
 		_, elemSort := so.arrayParts()
+		if si := reg.Struct(elemSort); si != nil && len(as.anyFields[name]) > 0 {
+			var goals []Goal
+			for fi := range si.Fields {
+				if as.anyFields[name][fi] {
+					continue
+				}
+				h := append([]Term(nil), hyps...)
+				for refText, fis := range as.fields[name] {
+					for _, x := range fis {
+						if x == fi {
+							h = append(h, Neq(rt, as.frefs[name][refText]))
+						}
+					}
+				}
+				goals = append(goals, Goal{Decls: []string{decl}, Hyps: h, Goal: Eq(reg.FieldGet(Select(cur, rt), fi), reg.FieldGet(Select(init, rt), fi))})
+			}
+			run.addGoals(st, kind, name, goals, "only the named field of objects in "+name+" changes", fc.Where)
+			continue
+		}
 		if si := reg.Struct(elemSort); si != nil && len(as.fields[name]) > 0 {
 			var goals []Goal
 			for fi, f := range si.Fields {
@@ -556,7 +600,50 @@ func shortKey(k string) string {
 // the pre-state on all pre-existing locations outside the assigns set (objects
 // allocated by the callee are unconstrained).
 func (run *FuncRun) havocAssignSet(st *State, pre *Snapshot, as *assignSet) {
-	st.newEpoch(pre, as)
+	// Objects allocated by the callee appear in the so far unconstrained part
+	// (references >= the old allocation counter) of the existing components,
+	// so only the assigned components need new versions.
+	st.HavocAlloc()
+	news := map[string]Term{}
+	for _, name := range sortedKeys(as.comps) {
+		so := as.comps[name]
+		run.compSorts[name] = so
+		old := st.H(name, so)
+		nw := st.Fresh("hv", so)
+		if f := nilMapFact(name, nw); f != "" {
+			st.script.Add(f)
+		}
+		for _, f := range run.heapFacts(name, nw, st.alloc) {
+			st.script.Add(f)
+		}
+		for _, f := range run.frameAxioms(name, nw, old, pre.alloc, as) {
+			st.script.Add(f)
+		}
+		news[name] = nw
+	}
+	for name, nw := range news {
+		st.heap[name] = nw
+	}
+	for _, name := range sortedKeys(news) {
+		if strings.HasPrefix(name, "MapCard:") {
+			domName := "MapDom:" + strings.TrimPrefix(name, "MapCard:")
+			if ds, ok := run.compSorts[domName]; ok {
+				for _, f := range run.mapVersionFacts(name, news[name], st.H(domName, ds)) {
+					st.script.Add(f)
+				}
+			}
+		}
+	}
+	if as.all {
+		return
+	}
+	// package-level variables named by the callee
+	for g := range as.globals {
+		comp := "G:" + g
+		if so, ok := run.compSorts[comp]; ok {
+			st.heap[comp] = st.Fresh("hv", so)
+		}
+	}
 }
 
 // frameAxioms relates a new version of a component to its parent version.
@@ -579,6 +666,24 @@ func (run *FuncRun) frameAxioms(name string, nw, old Term, preAlloc Term, as *as
 		}
 		for _, refText := range sortedKeys(as.fields[name]) {
 			conds = append(conds, fmt.Sprintf("(or (= %s 0) (not (= %s %s)))", r, r, refText))
+		}
+	}
+	if as != nil && len(as.anyFields[name]) > 0 {
+		// some fields may change in every object: the others are preserved
+		_, es := nw.Sort.arrayParts()
+		if si := reg.Struct(es); si != nil {
+			var eqs []string
+			for fi, f := range si.Fields {
+				if as.anyFields[name][fi] {
+					continue
+				}
+				eqs = append(eqs, fmt.Sprintf("(= (%s (select %s %s)) (%s (select %s %s)))", f.Accessor, nw.S, r, f.Accessor, old.S, r))
+			}
+			if len(eqs) > 0 {
+				out = append(out, fmt.Sprintf("(assert (forall ((%s Int)) (! (=> (and %s) (and %s)) :pattern ((select %s %s)))))",
+					r, strings.Join(conds, " "), strings.Join(eqs, " "), nw.S, r))
+			}
+			return out
 		}
 	}
 	out = append(out, fmt.Sprintf("(assert (forall ((%s Int)) (! (=> (and %s) (= (select %s %s) (select %s %s))) :pattern ((select %s %s)))))",
@@ -800,7 +905,15 @@ func (run *FuncRun) execAppend(st *State, c *ssa.CallCommon, args []Val, in ssa.
 	// appending nothing to a slice leaves it (and nil) untouched
 	res := Ite(Eq(lenT, IntLit(0)), s, MkSlice(arr, newLen, Ite(inplace, SliceCap(s), capF)))
 	st.SetH(name, Ite(Eq(lenT, IntLit(0)), h, Store(h, arr, content)))
-	return st.Name("app", res)
+	out := st.Name("app", res)
+	// make the appended elements visible as terms of the result (helps E-matching find witnesses)
+	if n, elems := run.staticElems(st, c.Args[1], t, es); n >= 0 {
+		h2 := st.H(name, aso)
+		for i := 0; i < n; i++ {
+			st.Assume(Eq(Select(Select(h2, SliceArr(out)), Add(lenS, IntLit(int64(i)))), elems[i]))
+		}
+	}
+	return out
 }
 
 // staticElems recognises the varargs pattern: slice t[:] of a fresh [N]T array.
@@ -859,4 +972,22 @@ func appendClosure(m map[string]Val, name string, v Val) map[string]Val {
 	}
 	m[name] = v
 	return m
+}
+
+// safeGoals evaluates a clause; an internal (check) clause that mentions a
+// local variable not yet declared on this return path is skipped there.
+func safeGoals(env *CEnv, cl *Clause) (goals []Goal, skipped bool) {
+	if !cl.Internal {
+		return env.proveGoals(cl.Expr), false
+	}
+	defer func() {
+		if r := recover(); r != nil {
+			if ee, ok := r.(engineError); ok && strings.Contains(ee.msg, "unknown identifier") {
+				skipped = true
+				return
+			}
+			panic(r)
+		}
+	}()
+	return env.proveGoals(cl.Expr), false
 }
